@@ -128,5 +128,13 @@ theorem step_inv_noreopen {s : State} (hI : Inv s) (op : Op) (hop :  d, op 
     路 exact hI
     路 exact moveFrame_inv hI sd _ d fn
   | reopen d => exact absurd rfl (hop d)
+  | view r =>
+    simp only [step, withField]
+    split
+    路 exact hI
+    路 next h _ =>
+      rw [void_state]
+      have := viewField_frames .repaired s h
+      exact hI.lift (viewField_inv hI.toInvCore h) this.1.symm this.2.symm
 
 end Exetera.Catalogue
